@@ -210,6 +210,25 @@ fn all_small_integers<T: Elem>(v: &[T]) -> bool {
     })
 }
 
+/// every value is a small integer multiple of the power of two `s`
+fn scaled_small_integers<T: Elem>(v: &[T], s: f64) -> bool {
+    v.iter().all(|x| {
+        let f = x.to_f64() / s;
+        f == f.trunc() && f.abs() <= 1048576.0
+    })
+}
+
+/// the scale at which integer data make every term of `op` a small multiple of the smallest subnormal: the smallest
+/// subnormal itself for a sum; 2^-74 (f32: terms are multiples of 2^-148) / 2^-537 (f64: of 2^-1074) for the products
+pub fn subnormal_scale<T: Elem>(op: Op) -> f64 {
+    match (op, T::BITS) {
+        (Op::Sum, 32) => 2f64.powi(-149),
+        (Op::Sum, _) => f64::from_bits(1),
+        (_, 32) => 2f64.powi(-74),
+        _ => 2f64.powi(-537),
+    }
+}
+
 fn float_reduce_expect<T: Elem>(op: Op, a: &[T], b: &[T]) -> Expect<T> {
     let n = a.len();
     let u = unit_roundoff::<T>();
@@ -228,6 +247,15 @@ fn float_reduce_expect<T: Elem>(op: Op, a: &[T], b: &[T]) -> Expect<T> {
     if all_small_integers(a) && (!uses_b || all_small_integers(b)) && sum_abs <= limit {
         exactly = Some(T::from_f64(exact.hi));
         why = "all products and partial sums are exactly representable integers".into();
+    } else if {
+        let s = subnormal_scale::<T>(op);
+        let st = if op == Op::Sum { s } else { s * s };
+        scaled_small_integers(a, s) && (!uses_b || scaled_small_integers(b, s)) && sum_abs / st <= limit
+    } {
+        // the same exact-integer arithmetic, in units of (a small multiple of) the smallest subnormal: gradual
+        // underflow makes every product and partial sum exactly representable
+        exactly = Some(T::from_f64(exact.hi));
+        why = "all products and partial sums are exactly representable multiples of the smallest subnormal".into();
     } else if nonzero <= 1 {
         // one term: every backend computes fl(term) and adds exact zeros
         exactly = Some(T::from_f64(exact.to_f64_rounded_to::<T>()));
